@@ -52,6 +52,21 @@ def mutants(ctx, blob, dense):
         out.append(("multi", bytes(m)))
     out.append(("append", blob + b"\x00"))
     out.append(("append", blob + blob[-16:]))
+    # option fields: every INTEGER / OID of the CMS structure with a neighbouring value (versions, the GCM ICVlen, algorithm arcs) —
+    # alone and together with one flipped ciphertext bit (an unauthenticated option must not buy a weaker check)
+    try:
+        from props import c05
+        for (off, hl, cl, cons) in c05.tlv_spans(blob):
+            if blob[off] in (0x02, 0x06) and cl >= 1:
+                last = off + hl + cl - 1
+                for v in list(range(0, 21)) + [0x2D, 0x2E, 0x7F, 0x80, 0xFF]:
+                    if v != blob[last]:
+                        m = blob[:last] + bytes([v]) + blob[last + 1:]
+                        out.append((f"option@{last}={v}", m))
+                        if dense or v in (12, 13, 14, 15):
+                            out.append((f"option@{last}={v}+ctbit", m[:-20] + bytes([m[-20] ^ 1]) + m[-19:]))
+    except Exception:  # noqa
+        pass
     return out
 
 
